@@ -33,6 +33,7 @@ FORBIDDEN = re.compile(
     r"\bAdmitted\b|\badmit\b|\bAxiom\b|\bParameter\b|\bConjecture\b|Unset\s+Guard|bypass_check|type-in-type"
     r"|\bAdmit\s+Obligations\b|impredicative-set|^\s*(Variable|Hypothesis|Variables|Hypotheses)\b"
 )
+LAST_DEPS = {}
 OBLIG = re.compile(r"^\s*(Theorem|Lemma|Example|Corollary|Fact|Remark|Proposition)\s+([A-Za-z0-9_']+)", re.M)
 SUBDIRS = ["Base", "Gen", "Model", "Proofs", "Properties", "CorrDefs"]
 
@@ -146,6 +147,8 @@ def dep_cone(vfile, files):
             continue
         src = tgt[0][:-1]
         deps[src] = [x[:-1] for x in rhs.split() if x.endswith(".vo")]
+    global LAST_DEPS
+    LAST_DEPS = {os.path.normpath(k): [os.path.normpath(x) for x in v] for k, v in deps.items()}
     cone, todo = [], [vfile]
     while todo:
         f = todo.pop()
@@ -428,8 +431,24 @@ def check(mod, prop, tier, seed, t0, workdir, args):
     if rc_p != 0:
         e = first_error(out_p) or {"file": prop_v, "message": out_p[-800:]}
         tie_broken.append({"kind": "proof-obligation", "what": f"{e.get('file')}:{e.get('obligation')}", "detail": e})
-        ok_files = [f for f in cone if os.path.exists(os.path.join(COQ, f + "o"))
-                    and os.path.getmtime(os.path.join(COQ, f + "o")) >= os.path.getmtime(os.path.join(COQ, f))]
+        # a file counts as checked only if its .vo is newer than its source AND than the .vo of everything it depends on
+        # (a stale .vo left by an earlier build of an unchanged-looking file is not a discharged obligation)
+        memo = {}
+
+        def fresh(f):
+            if f in memo:
+                return memo[f]
+            memo[f] = False
+            vo, v = os.path.join(COQ, f + "o"), os.path.join(COQ, f)
+            ok = os.path.exists(vo) and os.path.exists(v) and os.path.getmtime(vo) >= os.path.getmtime(v)
+            for d in LAST_DEPS.get(f, []):
+                if not ok:
+                    break
+                ok = fresh(d) and os.path.getmtime(vo) >= os.path.getmtime(os.path.join(COQ, d + "o"))
+            memo[f] = ok
+            return ok
+
+        ok_files = [f for f in cone if fresh(f)]
         discharged = len(obligations_in(ok_files))
         axioms, closed, pa_out = [], 0, ""
     else:
